@@ -31,3 +31,6 @@ TS_OVERRIDES = ['_ZN13opentelemetry2v15trace10TraceState15IsValidKeyRegExENS0_5n
                 '_ZN13opentelemetry2v15trace10TraceState17IsValidValueRegExENS0_5nostd11string_viewE']
 TS_MODELS = ['regex_model.c', 'tracestate_regex.c']
 RE_UNWINDSET = {'re_match.0': 10, 're_match.1': 10, 're_match.2': 10, 're_match.3': 10, 're_match.4': 10, 're_match.5': 10}
+
+SP_RELEASE = '_ZNSt16_Sp_counted_baseILN9__gnu_cxx12_Lock_policyE2EE10_M_releaseEv'
+SP_LEAK_MODEL = 'sp_release_leak.c'
